@@ -164,6 +164,8 @@ def match_known(prop, finding, triggers):
             continue
         if "what" in k and k["what"] != finding.get("what"):
             continue
+        if "what_in" in k and finding.get("what") not in k["what_in"]:
+            continue
         if "site" in k and k["site"] != site_fn(finding.get("site")):
             continue
         if "msg_contains" in k and k["msg_contains"] not in json.dumps(finding.get("detail", {})):
